@@ -36,6 +36,7 @@ fn fp_name(f: RFp) -> &'static str {
         RFp::ValueOfPrevious => "value-of-the-previous-message",
         RFp::BadWithUnknownRequired => "wrong-next-to-an-unknown-required-attribute",
         RFp::AbsentWithUnknownRequired => "absent-next-to-an-unknown-required-attribute",
+        RFp::ValidWithUnknownRequired => "valid-next-to-an-unknown-required-attribute",
         RFp::BadWithResidueTrailer => "wrong-with-a-crc-residue-trailer-beyond-the-message",
         RFp::BadWithLookalikeTrailer => "wrong-with-a-fingerprint-lookalike-beyond-the-message",
     }
